@@ -471,3 +471,193 @@ pub fn f4(path: &str, out_dir: &str) -> Result<Value, String> {
     }
     Ok(rep.finish())
 }
+
+// ------------------------------------------------------------------------------------------
+// C19 typed numbers: {s: [chars], locale, r: {v: num|not|nov, neg, digits, e10, kinds}}
+
+fn fmt_kind(num_fmt: &str) -> &'static str {
+    let f = num_fmt;
+    if f.eq_ignore_ascii_case("general") {
+        "general"
+    } else if f.contains('%') {
+        "percent"
+    } else if f.contains('$') || f.contains('€') || f.contains('£') {
+        "currency"
+    } else if f.contains("E+") || f.contains("E-") {
+        "scientific"
+    } else if f.contains('y') || f.contains('d') || f.contains("mm") || f.contains('h') {
+        "date"
+    } else if f.contains("#,##0") {
+        "grouped"
+    } else {
+        "other"
+    }
+}
+
+pub fn numinput(path: &str, out_dir: &str) -> Result<Value, String> {
+    let mut rep = Report::new(out_dir)?;
+    let f = std::fs::File::open(path).map_err(|e| e.to_string())?;
+    let mut models: std::collections::HashMap<String, Model> = Default::default();
+    for line in std::io::BufReader::new(f).lines() {
+        let line = line.map_err(|e| e.to_string())?;
+        let c: Value = match serde_json::from_str(&line) {
+            Ok(v) => v,
+            Err(_) => continue,
+        };
+        rep.n_cases += 1;
+        let text = join(&c["s"]);
+        let loc = c["locale"].as_str().unwrap_or("en").to_string();
+        let r = &c["r"];
+        let verdict = r["v"].as_str().unwrap_or("");
+        let small = json!({"text": text, "locale": loc, "spec": r});
+        if verdict == "nov" {
+            rep.no_verdict += 1;
+            continue;
+        }
+        let model = match models.entry(loc.clone()) {
+            std::collections::hash_map::Entry::Occupied(e) => e.into_mut(),
+            std::collections::hash_map::Entry::Vacant(v) => {
+                let l: &'static str = if loc == "de" { "de" } else { "en" };
+                v.insert(Model::new_empty("b", l, "UTC", "en")?)
+            }
+        };
+        // a fresh, default-styled cell for every case
+        let row = (rep.n_cases % 1_000_000) as i32 + 1;
+        rep.n_checks += 1;
+        let res = std::panic::catch_unwind(std::panic::AssertUnwindSafe(|| model.set_user_input(0, row, 1, text.clone())));
+        match res {
+            Err(_) => {
+                rep.mismatch("PANIC", "panic", "set_user_input", small, "panic".into());
+                continue;
+            }
+            Ok(Err(e)) => {
+                rep.mismatch("C19", "input-rejected", "set_user_input", small, e);
+                continue;
+            }
+            Ok(Ok(())) => {}
+        }
+        let is_formula = model.get_cell_formula(0, row, 1).ok().flatten().is_some();
+        let value = model.get_cell_value_by_index(0, row, 1).ok();
+        let ty = model.get_cell_type(0, row, 1).ok();
+        let num_fmt = model.get_style_for_cell(0, row, 1).map(|s| s.num_fmt).unwrap_or_default();
+        let stored_number = match (&value, &ty) {
+            (Some(ironcalc_base::cell::CellValue::Number(n)), Some(ironcalc_base::types::CellType::Number)) if !is_formula => Some(*n),
+            _ => None,
+        };
+        match verdict {
+            "num" => {
+                let neg = r["neg"].as_bool().unwrap_or(false);
+                let digits = join(&r["digits"]);
+                let e10 = r["e10"].as_i64().unwrap_or(0);
+                let want_text = format!("{}{}e{}", if neg { "-" } else { "" }, digits, e10);
+                let want: f64 = want_text.parse().unwrap_or(f64::NAN);
+                let kinds: Vec<String> = r["kinds"].as_array().map(|a| a.iter().map(|x| x.as_str().unwrap_or("").to_string()).collect()).unwrap_or_default();
+                rep.nontrivial.insert(format!("{}:{}", kinds.first().cloned().unwrap_or_default(), text.chars().filter(|ch| !ch.is_ascii_digit()).collect::<String>()));
+                match stored_number {
+                    None => rep.mismatch("C19", "number-not-recognised", &kinds.join("+"), small, format!("stored as {:?} (formula: {is_formula}) want {want_text}", value)),
+                    Some(n) => {
+                        let close = if want == 0.0 { n == 0.0 } else { ((n - want) / want).abs() < 1e-14 };
+                        if !close {
+                            let why = if n == -want && want != 0.0 { "sign-lost" } else { "wrong-value" };
+                            rep.mismatch("C19", why, &kinds.join("+"), small, format!("stored {n} want {want_text}"));
+                        } else if !kinds.contains(&"any".to_string()) && !kinds.contains(&fmt_kind(&num_fmt).to_string()) {
+                            rep.mismatch("C19", "format-kind", &kinds.join("+"), small, format!("format '{num_fmt}' is of kind {}", fmt_kind(&num_fmt)));
+                        }
+                    }
+                }
+                if rep.samples.len() < 3 && kinds[0] != "general" {
+                    rep.samples.push(json!({"text": text, "locale": loc, "spec": r}));
+                }
+            }
+            "not" => {
+                if let Some(n) = stored_number {
+                    rep.mismatch("C19", "non-number-stored-as-number", fmt_kind(&num_fmt), small, format!("stored {n} with format '{num_fmt}'"));
+                }
+            }
+            _ => {}
+        }
+        if row % 2000 == 0 {
+            // keep the sheet small
+            let _ = model.range_clear_all(&ironcalc_base::expressions::types::Area { sheet: 0, row: 1, column: 1, width: 1, height: row });
+        }
+    }
+    Ok(rep.finish())
+}
+
+// ------------------------------------------------------------------------------------------
+// C20 number formats: {num: [chars], code: [chars], locale, dec, kind, r: {v: text|nov, text}}
+
+pub fn numformat(path: &str, out_dir: &str) -> Result<Value, String> {
+    use ironcalc_base::formatter::format::format_number;
+    let mut rep = Report::new(out_dir)?;
+    let f = std::fs::File::open(path).map_err(|e| e.to_string())?;
+    let mut model = Model::new_empty("b", "en", "UTC", "en")?;
+    let mut model_de = Model::new_empty("b", "de", "UTC", "en")?;
+    let mut row = 0;
+    for line in std::io::BufReader::new(f).lines() {
+        let line = line.map_err(|e| e.to_string())?;
+        let c: Value = match serde_json::from_str(&line) {
+            Ok(v) => v,
+            Err(_) => continue,
+        };
+        rep.n_cases += 1;
+        let num = join(&c["num"]);
+        let code = join(&c["code"]);
+        let loc = c["locale"].as_str().unwrap_or("en");
+        let r = &c["r"];
+        if r["v"] != "text" {
+            rep.no_verdict += 1;
+            continue;
+        }
+        let want = join(&r["text"]);
+        let value: f64 = match num.parse() {
+            Ok(v) => v,
+            Err(_) => continue,
+        };
+        let locale = ironcalc_base::locale::get_locale(loc).map_err(|_| "no locale".to_string())?;
+        let small = json!({"number": num, "format": code, "locale": loc, "want": want});
+        rep.n_checks += 1;
+        let res = std::panic::catch_unwind(|| format_number(value, &code, locale));
+        let got = match res {
+            Ok(g) => g,
+            Err(_) => {
+                rep.mismatch("PANIC", "panic", "format_number", small, "panic".into());
+                continue;
+            }
+        };
+        // a case is non-trivial when rounding actually drops digits
+        let frac_len = num.split('e').nth(1).and_then(|e| e.parse::<i64>().ok()).map(|e| -e).unwrap_or(0);
+        let dec = c["dec"].as_i64().unwrap_or(0) + if code.contains('%') { -2 } else { 0 };
+        if frac_len > dec {
+            rep.nontrivial.insert(format!("{num}|{code}"));
+        }
+        if let Some(e) = &got.error {
+            rep.mismatch("C20", "format-error", c["kind"].as_str().unwrap_or(""), small, e.clone());
+            continue;
+        }
+        if got.text != want {
+            // classify: a tie that was not rounded away from zero, or something else
+            let why = if got.text.len() == want.len() { "rounding" } else { "shape" };
+            rep.mismatch("C20", why, &format!("{}:{}", c["kind"].as_str().unwrap_or(""), code), small, format!("got '{}'", got.text));
+            continue;
+        }
+        // the same through a cell (every 16th case, to bound the cost)
+        if rep.n_cases % 16 == 0 {
+            rep.n_checks += 1;
+            row += 1;
+            let m = if loc == "de" { &mut model_de } else { &mut model };
+            let mut st = ironcalc_base::types::Style::default();
+            st.num_fmt = code.clone();
+            let _ = m.update_cell_with_number(0, row, 1, value);
+            let _ = m.set_cell_style(0, row, 1, &st);
+            let shown = m.get_formatted_cell_value(0, row, 1).unwrap_or_default();
+            if shown != want {
+                rep.mismatch("C20", "cell-display", &format!("{}:{}", c["kind"].as_str().unwrap_or(""), code), small, format!("got '{shown}'"));
+            }
+        }
+        if rep.samples.len() < 3 && frac_len > dec {
+            rep.samples.push(json!({"number": num, "format": code, "locale": loc, "text": want}));
+        }
+    }
+    Ok(rep.finish())
+}
